@@ -221,13 +221,13 @@ class UnitSystem:
                 unit = unit.as_coeff_Mul()[1]
             if (
                 self.registry is not None
-                and self.registry[str(unit)][1] is not dimension
+                and self.registry[str(unit)][1] != dimension
             ):
                 raise IllDefinedUnitSystem(self.units_map)
             elif self.registry is None:
                 bu = _split_prefix(str(unit), default_lut)[1]
                 inferred_dimension = default_lut[inv_name_alternatives[bu]][1]
-                if inferred_dimension is not dimension:
+                if inferred_dimension != dimension:
                     raise IllDefinedUnitSystem(self.units_map)
         self._dims = [
             "length",
